@@ -92,6 +92,12 @@ def table():
     q("m_shift")(lambda pp, a, x: a.shift(2))
     q("m_shuffle_seed")(lambda pp, a, x: a.shuffle(seed=3))
     q("m_reverse")(lambda pp, a, x: a.reverse())
+    q("m_reverse_swap")(lambda pp, a, x: a.reverse(swap_terms=True))
+    q("m_slice_prefix")(lambda pp, a, x: a.slice(0, 3))
+    q("m_slice_suffix")(lambda pp, a, x: a.slice(2, None))
+    q("m_shift_zero")(lambda pp, a, x: a.shift(0))
+    q("digest_annotations")(lambda pp, a, x: pp.digest(a, "trypsin/P", missed_cleavages=1, return_type="annotation"))
+    q("fragment_objects_seq")(lambda pp, a, x: [f.sequence for f in pp.fragment(a, ["b", "y"], 1)])
     q("m_sort")(lambda pp, a, x: a.sort_residues())
     q("m_split")(lambda pp, a, x: a.split())
     q("m_count_residues")(lambda pp, a, x: a.count_residues())
